@@ -302,7 +302,7 @@ func runC10(env *Env, s Scenario) {
 	env.Context = func() string { return sr.Summary() + fmt.Sprintf("plan: %+v\ndevice log: %q\n", *sc.Plan, sr.Dev.Log) }
 	env.Res.Shape = fmt.Sprintf("%s asks=%s end=%s stall=%d seg=%s lat=%s rd=%d", sc.Auth, strings.Join(sc.Plan.Asks, ","), sc.Plan.End, sc.F.StallAt, sc.Net.SegMode, sc.Net.LatMode, sc.ReadDelayUS)
 	env.Res.Nontrivial = true
-	for k, v := range sr.Tr.FaultFired {
+	for k, v := range sr.Tr.Faults() {
 		env.Fault(k, v)
 	}
 	switch sc.Plan.End {
@@ -369,7 +369,7 @@ func runC10(env *Env, s Scenario) {
 			if d := closeBegin - open.Start; closeBegin >= 0 && (d < sc.connTimeout() || d > sc.connTimeout()+6*rd+sc.Net.LatMax) {
 				env.Fail("timeout-bound", "", "C05: in-channel authentication gave up after %v with the device silent; timeout %v", d, sc.connTimeout())
 			}
-			if sr.Tr.CloseCalls == 0 {
+			if sr.Tr.CloseCount() == 0 {
 				env.Fail("transport-left-open", "", "Open failed (%v) but the transport was not closed", open.Err)
 			}
 		}
@@ -380,7 +380,7 @@ func runC10(env *Env, s Scenario) {
 		env.Fail("wrong-open-outcome", "", "Open returned %v (class %q); the dialogue %v ending in %s calls for class %q", open.Err, open.Class, sc.Plan.Asks, sc.Plan.End, sc.Plan.WantOpen)
 	}
 	if open.Err != nil {
-		if sr.Tr.CloseCalls == 0 {
+		if sr.Tr.CloseCount() == 0 {
 			env.Fail("transport-left-open", "", "Open failed (%v) but the transport was not closed", open.Err)
 		}
 		if sc.Plan.WantOpen != "" && loginLines != sc.Plan.Answered {
